@@ -53,6 +53,8 @@ def _kind(fn: T.Any) -> str | None:
     decos = [d for d in decos if d.split("(")[0] not in ("functools.lru_cache", "lru_cache", "functools.cache", "cache")]
     if not decos:
         return "method"
+    if decos == ["property"]:
+        return "property"
     if decos == ["staticmethod"]:
         return "static"
     if decos == ["classmethod"]:
@@ -642,12 +644,48 @@ def _module_bindings(tree: ast.Module) -> set[str]:
 _SERIAL = [0]
 
 
+def _inline_closures(tree: ast.Module) -> list[str]:
+    """A local closure `def g(..): ...` inside a routine, used only by calling it there, is expanded at its call sites (its free
+    variables are the routine's own names) and removed.  Refused when g is passed around, re-binds an enclosing name
+    (nonlocal), is decorated, or cannot be expanded at every call."""
+    notes: list[str] = []
+    funcs = [n for n in ast.walk(tree) if isinstance(n, FUNC_KINDS)]
+    for f in funcs:
+        nested = [(blk, st) for blk in _blocks(f) for st in blk if isinstance(st, FUNC_KINDS) and st is not f]
+        nested = [(blk, g) for blk, g in nested if not any(g is x for h in funcs if h is not f and h is not g and any(h is y for y in ast.walk(f)) for x in ast.walk(h) if x is not h)]
+        for blk, g in nested:
+            if g.decorator_list or any(isinstance(x, (ast.Nonlocal, ast.Global)) for x in ast.walk(g)):
+                continue
+            refs = [n for n in ast.walk(f) if isinstance(n, ast.Name) and n.id == g.name]
+            calls = [c for c in ast.walk(f) if isinstance(c, ast.Call) and isinstance(c.func, ast.Name) and c.func.id == g.name]
+            if not calls or len(refs) != len(calls) or any(any(r is x for x in ast.walk(g)) for r in refs):
+                continue
+            fc = _clone(f)
+            gc = next(x for x in ast.walk(fc) if isinstance(x, FUNC_KINDS) and x.name == g.name and x is not fc)
+            for b2 in _blocks(fc):
+                if any(x is gc for x in b2):
+                    b2[:] = [x for x in b2 if x is not gc] or [ast.copy_location(ast.Pass(), gc)]
+                    break
+            saved_name = fc.name
+            synth = ast.Module(body=[gc, fc], type_ignores=[])
+            saved_decos, fc.decorator_list = fc.decorator_list, []
+            inline_new_helpers(synth, {saved_name}, _closures=False)
+            fc.decorator_list = saved_decos
+            if gc in synth.body or any(isinstance(n, ast.Name) and n.id == g.name for n in ast.walk(fc)):
+                continue                     # not every call site could be expanded
+            f.body = fc.body
+            notes.append(f"local closure {g.name} of {f.name} expanded at its call sites")
+    return notes
+
+
 def inline_new_helpers(tree: ast.Module, known_functions: set[str], extern: dict[str, tuple[T.Any, str, ast.Module]] | None = None,
-                       keep: T.Container[str] = frozenset()) -> list[str]:
+                       keep: T.Container[str] = frozenset(), _closures: bool = True) -> list[str]:
     """Inline helpers that are not in `known_functions` (keys 'Class.method' / 'function').  `extern`: new module-level helpers of
     OTHER units that this unit imports: local name -> (definition, defining module, its tree); the module-level names their bodies
     use are imported from the defining module."""
     notes: list[str] = []
+    if _closures and extern is None:
+        notes += _inline_closures(tree)
     counter = _SERIAL
     allf: list[T.Any] = []
     new: dict[str, T.Any] = {}
@@ -701,7 +739,7 @@ def inline_new_helpers(tree: ast.Module, known_functions: set[str], extern: dict
     _DEFS.clear()
     _DEFS.update(new)
     # ---- statement helpers
-    stmts = {k: v for k, v in new.items() if inlinable(v)}
+    stmts = {k: v for k, v in new.items() if inlinable(v) and _kind(v) != "property"}
     for _ in range(3):
         if not stmts:
             break
@@ -742,9 +780,27 @@ def inline_new_helpers(tree: ast.Module, known_functions: set[str], extern: dict
         def __init__(self) -> None:
             self.done = 0
 
+        def visit_Attribute(self, n: ast.Attribute) -> ast.AST:
+            self.generic_visit(n)
+            # a NEW read-only property whose body is one expression: `recv.name` is that expression with self = recv
+            if isinstance(n.ctx, ast.Load) and n.attr in exprs and _kind(new[n.attr]) == "property" and _chain_ok(n.value) and getattr(new[n.attr], "_in_class", False):
+                helper = new[n.attr]
+                params = [a.arg for a in helper.args.args]
+                if len(params) == 1:
+                    res = _Subst({params[0]: n.value}, {}).visit(_clone(exprs[n.attr]))
+                    for x in ast.walk(res):
+                        ast.copy_location(x, n)
+                    self.done += 1
+                    return res
+            return n
+
         def visit_Call(self, n: ast.Call) -> ast.AST:
             self.generic_visit(n)
+            if isinstance(n.func, ast.Name) and n.func.id in exprs and _kind(new[n.func.id]) == "property":
+                return n
             ref = _helper_ref(n, exprs)
+            if ref is not None and _kind(new[ref[0]]) == "property":
+                return n
             if ref is None:
                 return n
             name, recv = ref
